@@ -787,7 +787,7 @@ class Emitter:
                 e = '(&(%s)->f%d)' % (e, n)
                 cur = r[1][n]
             elif r[0] == 'array':
-                if it[2] is None and 1 < r[1] <= 64 and self.resolve(r[2])[0] == 'struct' and self.contains_array(r[2]):
+                if it[2] is None and 1 < r[1] <= 256 and self.resolve(r[2])[0] == 'struct' and self.contains_array(r[2]):
                     # symbolic index into an array of aggregates that contain arrays: select among constant element
                     # addresses (CBMC 6.11 mis-dereferences "&a[i].member" followed by an access to a nested array)
                     e = '%s(%s, %s)' % (self.idx_helper(r), e, self.sidx(it))
